@@ -120,6 +120,11 @@ fn doc_cases(rng: &mut Rng, out: &mut Out, md: &MarkdownIt, src: &str) {
     let ans = match guarded(|| st.get_line(l).to_string()) { Ok(t) => hexs(&t), Err(_) => "PANIC".into() };
     out.emit(&format!("lines getline {} {}", h, l), &ans, true);
 
+    let (a, b) = (rng.below(n + 1), rng.below(n + 1));
+    let ans = match guarded(|| st.get_map(a, b)) { Ok(Some(p)) => { let (x, y) = p.get_byte_offsets(); format!("{}/{}", x, y) }, Ok(None) => "NONE".into(), Err(_) => "PANIC".into() };
+    if ans == "PANIC" { out.stats.count("getmap:panic"); }
+    out.emit(&format!("lines getmap {} {} {}", h, a, b), &ans, true);
+
     // get_lines on the fresh table
     for _ in 0..3 {
         let (b, e) = match rng.below(10) {
@@ -127,7 +132,11 @@ fn doc_cases(rng: &mut Rng, out: &mut Out, md: &MarkdownIt, src: &str) {
             1 => (0, n),
             _ => { let b = rng.below(n + 1); (b, rng.range(b, n)) }
         };
-        let indent = *rng.pick(&[0usize, 0, 1, 2, 3, 4, 5, 6, 8, 9, 100]);
+        // the last four exercise `indent as i32` (wrap-around to -1, -3, 3, -1); 2^31 is avoided: there
+        // `indent_nonspace - i32::MIN` overflows (a panic under overflow-checks, not modelled)
+        let indent = *rng.pick(&[0usize, 0, 0, 1, 1, 2, 2, 3, 4, 4, 5, 6, 8, 9, 100, 4294967295, 4294967293, 4294967299, usize::MAX]);
+        if indent > 1000 { out.stats.count("get:indent-cast-wraps"); }
+        if b > e { out.stats.count("get:begin>end"); }
         let keep = rng.chance(1, 2);
         let r = guarded(|| st.get_lines(b, e, indent, keep));
         match &r {
